@@ -324,7 +324,7 @@ func c05(c *ctx) {
 			}
 		})
 		instrs(checkSig, func(in ssa.Instruction) {
-			if ret, ok := in.(*ssa.Return); ok && len(ret.Results) == 2 && !isNilConst(ret.Results[0]) {
+			if ret, ok := in.(*ssa.Return); ok && len(ret.Results) == 2 && !isNilConst(ret.Results[0]) && !forwardsTransparent(ret.Results[0]) {
 				p := c.p.path(ret.Results[0])
 				r.Check(p == "lib/crypto.NewPublicKeyFromBytes($1.Signature.PublicKey)#0.Address()", "R3/CheckSignature/returned-address", c.p.Pos(checkSig.Pos()), "returns "+p, "CheckSignature returns "+p+", not the address of the key that was verified")
 			}
